@@ -89,6 +89,11 @@ const (
 	wTryPipe
 	wRunmodeTry     // function whose first statement is `runmode try function`
 	wRunmodeTryPipe // ... `runmode trypipe function`
+	// a block of one kind inside a function or block of the other kind: the block's own mode applies
+	wTryInPipeFn
+	wPipeInTryFn
+	wTryInPipe
+	wPipeInTry
 	nWrappers
 )
 
@@ -132,8 +137,16 @@ func run(cmds []cmd, wrapper int) {
 		block = "function verifc05fn {\n runmode try function\n " + sb.String() + "\n}\nverifc05fn"
 	case wRunmodeTryPipe:
 		block = "function verifc05fn {\n runmode trypipe function\n " + sb.String() + "\n}\nverifc05fn"
+	case wTryInPipeFn:
+		block = "function verifc05fn {\n runmode trypipe function\n try { " + sb.String() + " }\n}\nverifc05fn"
+	case wPipeInTryFn:
+		block = "function verifc05fn {\n runmode try function\n trypipe { " + sb.String() + " }\n}\nverifc05fn"
+	case wTryInPipe:
+		block = "trypipe { try { " + sb.String() + " } }"
+	case wPipeInTry:
+		block = "try { trypipe { " + sb.String() + " } }"
 	}
-	pipeMode := wrapper == wTryPipe || wrapper == wRunmodeTryPipe
+	pipeMode := wrapper == wTryPipe || wrapper == wRunmodeTryPipe || wrapper == wPipeInTryFn || wrapper == wPipeInTry
 	stdout, _, got, err := mx.Run(block)
 	rt.Assert(err == nil, "block does not compile: "+block)
 	rt.Reach("block-executed")
@@ -172,4 +185,11 @@ func VerifC05E2E() {
 func VerifC05Runmode() {
 	cmds := draw(rt.Param("n"))
 	run(cmds, wRunmodeTry+rt.Choice("wrapper", 2))
+}
+
+// VerifC05Mixed: a try block inside a trypipe function / block and the other way round: the
+// block's own kind decides how its pipelines are checked.
+func VerifC05Mixed() {
+	cmds := draw(rt.Param("n"))
+	run(cmds, wTryInPipeFn+rt.Choice("wrapper", 4))
 }
